@@ -336,6 +336,48 @@ func cpPermCase(seed uint64, idx int) *CaseSpec {
 	return &CaseSpec{Name: name, N: 1, Run: run, Atomic: true, Inputs: func() []string { return []string{name} }}
 }
 
+// cpFirstCase: every test whose verdict involves election-id arithmetic, run ALONE as the first
+// test of a fresh process state (the suite's counter at the library's default, 1) on a fresh
+// conformant server: "irrespective of the order" includes being first, and "irrespective of the
+// configured starting election id" includes the lowest one.
+func cpFirstCase() *CaseSpec {
+	name := "compliance/first"
+	run := func(keep []int) (*Trace, error) {
+		cpMu.Lock()
+		defer cpMu.Unlock()
+		client.BusyLoopDelay = 100 * time.Millisecond
+		t := &Trace{}
+		t.Add("begin %s", name)
+		compliance.SetNonDefaultVRFName("NON-DEFAULT-VRF")
+		compliance.SetDefaultNetworkInstanceName(server.DefaultNetworkInstanceName)
+		t.Add("cp.config %d %s %s %d", 1, S("NON-DEFAULT-VRF"), S(server.DefaultNetworkInstanceName), 0)
+		n := 0
+		for i, tt := range compliance.TestSuite {
+			nm := tt.In.ShortName
+			if !(strings.Contains(nm, "lush") || strings.Contains(nm, "lection")) {
+				continue
+			}
+			srv, err := newCpServer([]string{"NON-DEFAULT-VRF"}, !tt.In.RequiresDisallowedForwardReferences, nil)
+			if err != nil {
+				return t, err
+			}
+			compliance.SetElectionID(1)
+			res := runCpTest(tt, srv, 60*time.Second)
+			srv.stop()
+			v := "pass"
+			if res != "" {
+				v = "fail"
+				res = "as the first test with the default starting election id: " + res
+			}
+			t.Add("cp.test %d %d %s %s => %s %s", 0, i, S(nm), S("(nothing: first test, election id counter at 1)"), v, S(res))
+			n++
+		}
+		t.Add("end")
+		return t, nil
+	}
+	return &CaseSpec{Name: name, N: 1, Run: run, Atomic: true, Inputs: func() []string { return []string{name} }}
+}
+
 // ---- the fault catalogue ----
 
 // cpInstalled reports whether the entry an operation names is installed on the server.
@@ -548,6 +590,7 @@ func init() {
 			}
 			return len(cpFaults()) + 2
 		},
+		Corpus:   func() []*CaseSpec { return []*CaseSpec{cpFirstCase()} },
 		Required: []string{"cp.pass", "cp.fault.flagged"},
 		Serial:   true,
 		Atomic:   true,
